@@ -284,6 +284,7 @@ func (h *H) history(mult int) {
 	}
 
 	// ---- random history ----
+	var rx lorawan.PHYPayload
 	steps := 140 * mult
 	for s := 0; s < steps; s++ {
 		up := r.Bool()
@@ -300,6 +301,26 @@ func (h *H) history(mult int) {
 				continue
 			}
 			wire = append([]byte{}, wire...)
+			if r.Bool() {
+				// the long-lived receiver of an application: rx.UnmarshalBinary(f); work on rx; frames = append(frames, rx)
+				ok := false
+				p.call("rx.UnmarshalBinary (long-lived receiver)", func() { ok = rx.UnmarshalBinary(wire) == nil })
+				if !ok {
+					continue
+				}
+				fl := framefmt.DecodedFOptsLen(wire)
+				if m, isMac := rx.MACPayload.(*lorawan.MACPayload); isMac {
+					if r.Bool() {
+						m.FHDR.FCnt |= uint32(1+r.Intn(9)) << 16 // the application restores the 32-bit counter
+					}
+					if r.Intn(3) == 0 {
+						p.call("rx.DecodeFOptsToMACCommands", func() { _ = rx.DecodeFOptsToMACCommands() })
+					}
+				}
+				kept := rx // struct copy, shares whatever rx points to
+				p.add("kept-copy-of-long-lived-receiver", fmt.Sprintf("%d:%x", s, wire), phy(&kept, fl), map[string]interface{}{"api": "rx.UnmarshalBinary(in); kept := rx; later rx.UnmarshalBinary(other)", "in": hexs(wire)})
+				continue
+			}
 			q := &lorawan.PHYPayload{}
 			ok := false
 			p.call("PHYPayload.UnmarshalBinary", func() { ok = q.UnmarshalBinary(wire) == nil })
